@@ -593,6 +593,45 @@ def untyped_values_stream(ctx, res):
                             dict(case, saved=repr(tree)[:300], reloaded=repr(back)[:300]))
 
 
+def equal_other_type_stream(ctx, res):
+    """untyped fields that DECLARE a default, holding a value that is `==` the default but of another type (True / 1, 0 / False, 2 / 2.0,
+    lists and maps of such): the saved value comes back, not the default it compares equal to — at the root, nested and in list items"""
+    import cincoconfig as cc
+    from protocol import canon_sorted
+    pairs = [(1, True), (0, False), (True, 1), (2, 2.0), (0.0, 0), ([1, 0], [True, False]), ({"hard": 0}, {"hard": 0.0}), ([[1]], [[True]]), ("", ""), (None, 0)]
+    for dflt, held in pairs:
+        item = cc.Schema()
+        item.weight = cc.Field(default=copy.deepcopy(dflt))
+        s = cc.Schema()
+        s.retries = cc.Field(default=copy.deepcopy(dflt))
+        s.limits.value = cc.Field(default=copy.deepcopy(dflt))
+        s.flags = cc.ListField(default=lambda d=dflt: [copy.deepcopy(d)])
+        s.table = cc.DictField(default=lambda d=dflt: {"k": copy.deepcopy(d)})
+        s.members = cc.ListField(item, default=lambda: [])
+        cfg = s()
+        cfg.retries = copy.deepcopy(held)
+        cfg.limits.value = copy.deepcopy(held)
+        cfg.flags = [copy.deepcopy(held)]
+        cfg.table = {"k": copy.deepcopy(held)}
+        cfg.members = [{}]
+        cfg.members[0].weight = copy.deepcopy(held)
+        tree = cfg.to_tree()
+        for fmt in FORMATS:
+            if not in_domain(fmt, tree):
+                continue
+            case = {"stream": "equal-other-type", "fmt": fmt, "default": F.enc_val(dflt), "held": F.enc_val(held)}
+            res.case(stable(case), kind="equal-other-type:" + fmt)
+            fresh = s()
+            try:
+                fresh.loads(cfg.dumps(format=fmt), format=fmt)
+                back = fresh.to_tree()
+            except Exception as e:  # noqa
+                back = "raised %s: %s" % (type(e).__name__, str(e)[:80])
+            if isinstance(back, str) or canon_sorted(back) != canon_sorted(tree):
+                res.violate("C02:reload-differs:equal-to-default", "a saved value that compares equal to the field's default but has another type comes back as the default",
+                            dict(case, saved=repr(tree)[:300], reloaded=repr(back)[:300]))
+
+
 def P_plain(v):
     from cincoconfig.core import Config
     import cincoconfig as cc
@@ -612,6 +651,7 @@ def run(ctx, n_quick=400, n_thorough=6000):
     guard(res, "C02", container_stream, ctx, res, ctx.n(40, 1200))
     guard(res, "C02", keyfile_history_stream, ctx, res)
     guard(res, "C02", untyped_values_stream, ctx, res)
+    guard(res, "C02", equal_other_type_stream, ctx, res)
     P.run_stream(ctx, res, "C02", ctx.n(n_quick, n_thorough), oracle, gen_ops=gen_ops, ops_len=(3, 10),
                  schema_opts={"virtual": True}, label="save-reload")
     replies = ctx.model([r for _, _, r in PENDING])
